@@ -466,6 +466,10 @@ class Config:
                 value = default_bool
             else:
                 value = str_to_value(value)
+                if value is not None and not isinstance(value, bool):
+                    raise ValueError(
+                        f"Illegal value {value!r} for config attribute "
+                        f"{attribute!r}. Expected 'True' or 'False'.")
         elif attribute == 'default_ns':
             if value is not None:
                 value = verify_default_ns(value)
@@ -474,6 +478,12 @@ class Config:
                 value = verify_default_ew(value)
         else:
             value = str_to_value(value)
+            if (attribute in Config._INT_TYPE_ATTRIBUTES
+                    and value is not None
+                    and (isinstance(value, bool) or not isinstance(value, int))):
+                raise ValueError(
+                    f"Illegal value {value!r} for config attribute "
+                    f"{attribute!r}. Expected an integer.")
         if value is not None:
             setattr(self, attribute, value)
         return None
